@@ -11,9 +11,10 @@ def standard_items(tier, rng, scratch, out, budget, extra_generators=()):
     strs, res = inputs.tlc_strings(scratch.sub('strings'), 3)
     fstr, res2 = inputs.tlc_strings(scratch.sub('fstrings'), 4, inputs.FSTR_ALPHABET)
     ind, res3 = inputs.tlc_strings(scratch.sub('indstrings'), 4 if tier == 'quick' else 5, inputs.INDENT_ALPHABET)
-    out.add('states', res.distinct + res2.distinct + res3.distinct)
-    out.add('transitions', res.generated + res2.generated + res3.generated)
-    out.cov(strings_enumerated=len(strs), fstring_strings=len(fstr), indent_strings=len(ind))
+    shapes, res4 = inputs.indent_shapes(scratch.sub('shapes'), max_lines=5 if tier == 'quick' else 6)
+    out.add('states', res.distinct + res2.distinct + res3.distinct + res4.distinct)
+    out.add('transitions', res.generated + res2.generated + res3.generated + res4.generated)
+    out.cov(strings_enumerated=len(strs), fstring_strings=len(fstr), indent_strings=len(ind), indent_shapes=len(shapes))
     items = []
     nid = [0]
 
@@ -21,7 +22,7 @@ def standard_items(tier, rng, scratch, out, budget, extra_generators=()):
         nid[0] += 1
         items.append([nid[0], text, ver, origin])
 
-    share = max(1000, budget // 6)
+    share = max(1000, budget // 7)
     starts = ['f"', "f'", 'f"""', "rf'"]
     for i, s in enumerate(_take(strs, share, rng)):
         add(s, VERSIONS[i % 9], 'strings')
@@ -29,6 +30,8 @@ def standard_items(tier, rng, scratch, out, budget, extra_generators=()):
         add(starts[i % 4] + s, VERSIONS[i % 9], 'fstrings')
     for i, s in enumerate(_take(ind, share, rng)):
         add(('if a:\n  b\n' if i % 2 else '') + s, VERSIONS[i % 9], 'indstrings')
+    for i, s in enumerate(_take(shapes, share, rng)):
+        add(s, VERSIONS[i % 9], 'indent-shapes')
     for i in range(share):
         k = rng.randint(5, 14)
         s = ''.join(rng.choice(inputs.ALPHABET)[0] for _ in range(k))
